@@ -116,3 +116,29 @@ def report_trace_results(v, traces, results, prefix, what):
                         "%s trace rejected at event %s (%s); state before: PC=%s IR=%s maddr=%s" % (what, tr["reached"], tr["op"], pc, pre.get("ir"), pre.get("maddr")),
                         {"trace": tp, "rejected": ev, "tlc": tr["out_tail"][-800:]})
     return nev
+
+
+def board_irq_ops(rng):
+    """a short sequence that configures a board interrupt source and makes it fire: ICR write (IE, level or edge mode, polarity, source),
+    optional MICR bus enables, then transitions of exactly that source"""
+    src = rng.randrange(1, 7)
+    falling = rng.random() < 0.5
+    icr = 192 + (32 if rng.random() < 0.8 else 0) + (16 if rng.random() < 0.5 else 0) + (8 if falling else 0) + src
+    ops = []
+    if rng.random() < 0.7:
+        ops.append({"op": "bus_write", "a": 0xF9, "v": rng.choice([0x10, 0x20, 0x30, 0x3F, 0x11])})
+    if src <= 3 and rng.random() < 0.8:
+        ops.append({"op": "bus_write", "a": 0xF2, "v": 128})          # all UIO pins inputs
+    ops.append({"op": "bus_write", "a": 0xF2, "v": icr})
+    lo, hi = (True, False) if falling else (False, True)
+    def setlvl(val):
+        if src <= 3:
+            return [{"op": "set_uio", "k": src, "v": val}]
+        if src == 6:
+            return [{"op": "set_j1", "v": val}]
+        if src == 4:
+            return [{"op": "bus_write", "a": 0xF0, "v": 100}, {"op": "set_ai1", "x": 2000 if val else 500}]
+        return [{"op": "bus_write", "a": 0xF1, "v": 100}, {"op": "set_ai2", "x": 2000 if val else 500}]
+    ops += setlvl(lo) + setlvl(hi)
+    ops.append({"op": "edge", "n": rng.randrange(1, 6)})
+    return ops
